@@ -36,13 +36,13 @@ RULE = (
     "a further emission from the same emitter."
 )
 PROBES = ["reset_then_emission", "two_or_more_emitters", "disconnected_target", "isolated_vertex_target",
-          "dm_presented_target", "stabilizer_presented_target", "solver_with_dm_compiler", "solver_probabilistic", "solve_called_twice"]
+          "dm_presented_target", "stabilizer_presented_target", "solver_with_dm_compiler", "solver_probabilistic", "solve_called_twice", "stabilizer_other_generators_target", "vertices_created_unsorted"]
 REAL = ["graphiq.solvers.time_reversed_solver.TimeReversedSolver", "graphiq.metrics.Infidelity",
         "StabilizerCompiler / DensityMatrixCompiler", "graphiq.state.QuantumState (+ representation conversion of the target)",
         "graphiq.backends.stabilizer.functions (rref, height, inverse_circuit, transformation)"]
 STUB = ["measurement-outcome RNG answered by the outcome scheduler"]
 ASSUMPTIONS = [
-    "vertices are inserted in sorted order so that vertex i is qubit i (the node-order convention of the graph->state conversion is not judged here)",
+    "qubit k of a graph-typed target is the k-th created vertex (the convention all of graphiq's graph conversions share); vertices are created in sorted or shuffled order",
     "target state vector is built independently as CZ-on-|+>^n from the input edge list",
 ]
 
@@ -65,15 +65,17 @@ def gen_case(run_seed, tier):
         fam = "er-large"
     else:
         g, fam = graphs.random_graph(sz, 2, nmax, allow_isolated=False, fams=["er", "er", "path", "star", "cycle", "complete", "tree", "rgs", "union", "union", "union"])
-    rep = sz.choice(["g", "g", "s", "dm"])
+    rep = sz.choice(["g", "g", "s", "dm", "s2"])
     backend = sz.choice(["stab", "stab", "dm"])
     if g[0] > 5 and backend == "dm":
         backend = "stab"  # n photons + up to ~n/2 emitters: density matrices beyond 8 qubits take minutes per compile
     if g[0] > 6 and rep == "dm":
         rep = "s"
+    if aim_isolated and rep == "s2":
+        rep = "g"
     det = sz.choice([0, 1, 2])
     return {"n": g[0], "edges": [list(e) for e in g[1]], "family": fam, "rep": rep, "backend": backend, "det": det, "oseed": sz.randrange(10**9), "shuffle_edges": sz.random() < 0.3,
-            "solve_twice": sz.random() < 0.3}
+            "solve_twice": sz.random() < 0.3, "shuffle_nodes": sz.random() < 0.3}
 
 
 def simplify(case):
@@ -106,9 +108,43 @@ def simplify(case):
         yield c
 
 
+def node_order(case):
+    """creation order of the vertices; qubit k of the target is the k-th created vertex (graphiq's convention)"""
+    order = list(range(case["n"]))
+    if case.get("shuffle_nodes") and case["rep"] in ("g", "s", "s2"):
+        random.Random(case["oseed"] + 29).shuffle(order)
+    return order
+
+
+def expected_edges(case):
+    pos = {v: k for k, v in enumerate(node_order(case))}
+    return sorted((min(pos[a], pos[b]), max(pos[a], pos[b])) for a, b in case["edges"])
+
+
 def make_target(case):
     n, edges = case["n"], [tuple(e) for e in case["edges"]]
     g = graphs.to_nx((n, edges), edge_order_seed=(case["oseed"] + 17) if case.get("shuffle_edges") else None)
+    order = node_order(case)
+    if order != list(range(n)):
+        import networkx as nx
+
+        g2 = nx.Graph()
+        g2.add_nodes_from(order)
+        g2.add_edges_from(g.edges)
+        g = g2
+    if case["rep"] == "s2":
+        # the same state in another generating set: the photons' state compiled from a circuit that generates it
+        # (generators as the compile and the trace-out leave them, possibly with minus signs)
+        t0 = QuantumState(g, rep_type="g")
+        c0 = StabilizerCompiler()
+        c0.measurement_determinism = 1
+        s0 = TimeReversedSolver(target=t0, metric=Infidelity(t0), compiler=c0)
+        s0.solve()
+        c1 = StabilizerCompiler()
+        c1.measurement_determinism = 1
+        st = c1.compile(s0.result[1])
+        st.partial_trace(keep=list(range(n)), dims=s0.result[1].n_quantum * [2])
+        return st
     if case["rep"] == "dm":
         psi = sv.graph_state(n, edges).psi
         return QuantumState(np.outer(psi, psi.conj()), rep_type="dm")
@@ -122,13 +158,16 @@ def run_case(case):
     ctx = Ctx(ID)
     n, edges = case["n"], [tuple(e) for e in case["edges"]]
     g = (n, edges)
+    judge_edges = expected_edges(case)
     iso = bool(graphs.isolated(g))
     conn = graphs.is_connected(g)
     if iso:
         ctx.probe("isolated_vertex_target")
     if not conn:
         ctx.probe("disconnected_target")
-    ctx.probe({"g": "graph_presented_target", "s": "stabilizer_presented_target", "dm": "dm_presented_target"}[case["rep"]])
+    ctx.probe({"g": "graph_presented_target", "s": "stabilizer_presented_target", "dm": "dm_presented_target", "s2": "stabilizer_other_generators_target"}[case["rep"]])
+    if node_order(case) != list(range(n)):
+        ctx.probe("vertices_created_unsorted")
     det = {0: 0, 1: 1, 2: "probabilistic"}[case["det"]]
     sig = {"isolated": iso, "connected": conn}
     try:
@@ -181,7 +220,7 @@ def run_case(case):
     if circ.n_emitters >= 2:
         ctx.probe("two_or_more_emitters")
     nontrivial = reset_then_emit or circ.n_emitters >= 2
-    ok = circcheck.generates(ctx, circ, n, edges, sig, max_leaves=16, seed=case["oseed"], label="TimeReversedSolver result: ")
+    ok = circcheck.generates(ctx, circ, n, judge_edges, sig, max_leaves=16, seed=case["oseed"], label="TimeReversedSolver result: ")
     if ok:
         try:
             sc = float(score)
